@@ -618,6 +618,10 @@ def cyclecheck(ctx):
     ctx.touched(inner, len(inner.calls())); ctx.touched(outer, len(outer.calls()))
     pt = positional_truncations(inner) + positional_truncations(outer)
     ctx.ob('CYCLECHECK', 'visits-whole-collections', not pt, short_loc(inner.span), 'positional selections (take / skip / nth / first / sub-range) in the cycle search: %s' % (sorted({x[2] for x in pt}) or 'none'))
+    st = [(i, status_table_enum(f, inner.local_ty(i))) for i in range(1, inner.nargs + 1)]
+    st = [(i, a) for i, a in st if a is not None]
+    if len(st) == 1 and not any(is_bool_table(inner.local_ty(i)) for i in range(1, inner.nargs + 1)):
+        return cyclecheck_status(ctx, inner, outer, st[0][0], st[0][1])
     tables = [i for i in range(1, inner.nargs + 1) if is_bool_table(inner.local_ty(i))] + ['field:' + x for x in sorted(table_fields(inner))]
     ctx.ob('CYCLECHECK', 'two-tables', len(tables) == 2, short_loc(inner.span), 'boolean per-node tables passed down the search: %d (on-stack and done)' % len(tables))
     w = bool_table_writes(inner)
@@ -696,6 +700,110 @@ def cyclecheck(ctx):
         fresh = bool(ta) and all(any('from_elem' in n_ or 'vec' in n_.lower() for n_ in deep_call_names(outer, a, 5)) for a in ta)
         ok = ok and fresh
     ctx.ob('CYCLECHECK', 'outer-visits-every-record', ok, short_loc(outer.span), 'check_for_cycles starts a search (with `?`) from the records enumerated over all nodes, with freshly allocated tables: %s' % ok)
+
+
+def cyclecheck_status(ctx, inner, outer, tp, enum):
+    """the same depth-first search with ONE per-node table of a three-state enum (new / on the stack / done) instead of two
+    boolean tables.  The roles of the variants are read from the code: the recursion sits on the `new` edge of a match on
+    table[child]; the edge that returns Err is `on the stack`; the remaining one (`done`) recurses nowhere.  Same
+    obligations, same keys."""
+    f = ctx.f
+    names = [v['name'] for v in enum['variants']]
+    ctx.ob('CYCLECHECK', 'two-tables', True, short_loc(inner.span), 'one per-node table of the three-state enum %s %s (on-stack and done merged)' % (enum['path'].rsplit('::', 1)[-1], names))
+    rec = [(bb, t) for bb, t in inner.calls() if (t.get('resolved') or t.get('callee')) == inner.id and not inner.is_cleanup(bb)]
+    oks = ok_return_blocks(inner)
+
+    def is_table(o):
+        return tp in o.params() and ('index' in o.flags or any(call_matches(c, ['Index::index', 'Index<I>>::index', 'IndexMut::index_mut', 'IndexMut<I>>::index_mut']) for c in o.calls))
+    # writes `table[i] = Status::V`
+    writes = []
+    for bb in sorted(inner.live_blocks()):
+        if inner.is_cleanup(bb):
+            continue
+        for s_ in inner.stmts(bb):
+            vs_ = []
+            if 'assign' in s_ and s_['assign'].get('p') and s_['rv']['k'] == 'agg' and s_['rv'].get('adt') == enum['path']:
+                vs_ = [s_['rv'].get('variant')]
+            elif 'assign' in s_ and s_['assign'].get('p') and s_['rv']['k'] == 'use':
+                # (`_4 = Status::V; assert(bounds); (*table)[i] = move _4`)
+                vs_ = sorted({a[2] for a in origin(inner, s_['rv']['op']).atoms if a[0] == 'agg' and a[1] == enum['path']})
+            if len(vs_) == 1:
+                s_ = dict(s_, rv=dict(s_['rv'], variant=vs_[0]))
+                if is_table(origin(inner, s_['assign'])):
+                    io_ = Origin()
+                    for e_ in s_['assign'].get('p', []):
+                        if isinstance(e_, dict) and 'idx' in e_:
+                            io_ = origin(inner, {'copy': {'l': e_['idx']}})
+                    writes.append((bb, s_['rv'].get('variant'), io_))
+    new_v = stack_v = None
+    child_ok = False
+    errs_ok = False
+    for bb, t in rec:
+        for d, si, taken in dominating_switches(inner, bb):
+            if si.get('kind') == 'enum' and si.get('adt') == enum['path'] and is_table(origin(inner, si['place'])) and taken[0] == 'variant' and len(taken[1]) == 1:
+                new_v = taken[1][0]
+                # which entry is tested: the child's
+                io = Origin()
+                pl_ = si['place']
+                for e_ in pl_.get('p', []):
+                    if isinstance(e_, dict) and 'idx' in e_:
+                        io = origin(inner, {'copy': {'l': e_['idx']}})
+                if not io.fields:
+                    ic = [c for c in origin(inner, pl_).calls if call_matches(c, ['Index::index', 'Index<I>>::index', 'IndexMut::index_mut', 'IndexMut<I>>::index_mut'])]
+                    io = origin(inner, ic[0]['args'][1]) if ic else io
+                child_ok = 'type_' in io.fields and 'idx' in io.fields
+                for v_, tb_ in si['variants'].items():
+                    if v_ != new_v and all_paths_err(inner, tb_):
+                        stack_v = v_
+                        errs_ok = True
+                others = [v_ for v_ in names if v_ not in (new_v, stack_v)]
+                done_v = others[0] if len(others) == 1 else None
+                # the done edge recurses nowhere
+                tb_done = si['variants'].get(done_v, si.get('otherwise')) if done_v else None
+                skip_ok = tb_done is not None and not any(rb in inner.reachable_from(tb_done, avoid=[si['bb']]) and inner.dominates(tb_done, rb) for rb, _ in rec)
+    ctx.ob('CYCLECHECK', 'on-stack-table-found', new_v is not None and stack_v is not None, short_loc(inner.span),
+           'recursion guarded by a match on the child\'s entry of the status table: recursion on %s, Err on %s' % (new_v, stack_v))
+    if new_v is None or stack_v is None:
+        return
+    done_v = [v_ for v_ in names if v_ not in (new_v, stack_v)][0]
+    ctx.ob('CYCLECHECK', 'on-stack-child-errs', errs_ok, short_loc(inner.span), 'a record field whose record is on the search stack (%s) returns Err' % stack_v)
+    ctx.ob('CYCLECHECK', 'tests-the-child', child_ok, short_loc(inner.span), 'the status test is indexed by the field\'s node key: %s' % child_ok)
+    sets = [w_ for w_ in writes if w_[1] == stack_v]
+    entry_ok = len(sets) == 1 and bool(rec) and all(inner.dominates(sets[0][0], bb) for bb, t in rec) and sets[0][2].params() and not sets[0][2].fields
+    dn = [w_ for w_ in writes if w_[1] == done_v]
+    exit_ok = len(dn) == 1 and bool(oks) and all(inner.dominates(dn[0][0], o) for o in oks) and dn[0][2].atoms == (sets[0][2].atoms if sets else None)
+    never_new = not [w_ for w_ in writes if w_[1] == new_v]
+    ctx.ob('CYCLECHECK', 'stack-discipline', entry_ok and exit_ok and never_new, short_loc(inner.span),
+           'own node marked %s on entry (before any recursion): %s; re-marked (%s) before returning Ok: %s; never reset to %s: %s' % (stack_v, entry_ok, done_v, exit_ok, new_v, never_new))
+    ctx.ob('CYCLECHECK', 'done-marked-at-exit', exit_ok, short_loc(inner.span), 'node marked %s before returning Ok: %s' % (done_v, exit_ok))
+    ctx.ob('CYCLECHECK', 'done-children-skipped', skip_ok, short_loc(inner.span),
+           'a child that is already %s is not searched again: %s' % (done_v, skip_ok))
+    okr = bool(rec)
+    for bb, t in rec:
+        ia = [a for a, ty in zip(t['args'], t.get('arg_tys', [])) if ty == 'usize'] or t['args'][1:2]
+        io = origin(inner, ia[0])
+        okr = okr and 'type_' in io.fields and 'idx' in io.fields and not io.has_arith()
+        okr = okr and any('Record' in nm for nm, adt, oo, d_, oth in option_guards(inner, bb))
+        # the table handed down is the one received
+        ta = [a for a, ty in zip(t['args'], t.get('arg_tys', [])) if status_table_enum(f, ty) is not None]
+        okr = okr and bool(ta) and origin(inner, ta[0]).params() == {tp}
+    ctx.ob('CYCLECHECK', 'recurse-into-record-fields', okr, short_loc(inner.span), 'recursion follows record -> record field edges with the field\'s key and the same table: %s' % okr)
+    oc = [(bb, t) for bb, t in outer.calls() if (t.get('resolved') or t.get('callee')) == inner.id]
+    ok = len(oc) == 1 and try_edges(outer, oc[0][0]) is not None
+    if ok:
+        oargs, otys = oc[0][1]['args'], oc[0][1].get('arg_tys', [])
+        ia = [a for a, ty in zip(oargs, otys) if ty == 'usize'] or oargs[1:2]
+        io = origin(outer, ia[0])
+        ok = 'enumerate' in io.flags or any((c.get('callee') or '').endswith('Iterator::next') for c in io.calls)
+        ta = [a for a, ty in zip(oargs, otys) if status_table_enum(f, ty) is not None]
+        fresh = bool(ta) and all(any('from_elem' in n_ or 'vec' in n_.lower() for n_ in deep_call_names(outer, a, 5)) for a in ta)
+        # ... filled with the `new` state
+        init_new = False
+        for bb_, t_ in outer.calls():
+            if 'from_elem' in cname(t_):
+                init_new = any(a[0] == 'agg' and a[1] == enum['path'] and a[2] == new_v for a in origin(outer, t_['args'][0]).atoms)
+        ok = ok and fresh and init_new
+    ctx.ob('CYCLECHECK', 'outer-visits-every-record', ok, short_loc(outer.span), 'check_for_cycles starts a search (with `?`) from the records enumerated over all nodes, with a freshly allocated table filled with %s: %s' % (new_v, ok))
 
 
 def state_rule(ctx, rn):
